@@ -120,7 +120,28 @@ def _rect_history(mutation):
             lo1, up1 = cur.fields["lower"].flat(), cur.fields["upper"].flat()
             vf = z3.And(*[S.dom(W, v2, v1) for v1 in S.verts(lo1, up1) for v2 in S.verts(snap["lo2"], snap["up2"])])
             return V.Bz(p.value) == vf
-        t.prove_paths("second_result_is_the_vertex_formula_over_the_bounds_now_displayed", second, goal)
+
+        def replay(mdl):
+            me = lambda x: mdl.eval(V.Z(x), model_completion=True)
+            I = t.inputs
+            L_ = ["import itertools",
+                  "order = %s" % I["order"].src(me),
+                  "r1 = RectangularConfidenceRegion(2, %s, %s, intersect_iteratively=%r)" % (I["lo0"].src(me), I["up0"].src(me), mutation == "intersect"),
+                  "r2 = RectangularConfidenceRegion(2, %s, %s)" % (I["lo2"].src(me), I["up2"].src(me)),
+                  "first = RectangularConfidenceRegion.is_dominated(order, r1, r2, 0)"]
+            if mutation == "intersect":
+                L_.append("r1.intersect(%s, %s)" % (I["nl"].src(me), I["nu"].src(me)))
+            else:
+                L_.append("r1.update(%s, %s, %s)" % (I["mean"].src(me), I["cov"].src(me), I["scale"].src(me)))
+            L_ += ["second = bool(RectangularConfidenceRegion.is_dominated(order, r1, r2, 0))",
+                   "W = np.asarray(order.ordering_cone.W, dtype=float)",
+                   "margins = [float(np.min(W @ (np.array(v2) - np.array(v1)))) for v1 in itertools.product(*zip(r1.lower, r1.upper)) for v2 in itertools.product(*zip(r2.lower, r2.upper))]",
+                   "print('first use:', first, ' bounds now:', r1.lower, r1.upper, ' second use:', second, ' least vertex-pair margin over the current bounds:', min(margins))",
+                   "if abs(min(margins)) > 1e-9 and second != (min(margins) >= 0):",
+                   "    print('REPLAY-CONFIRMED obligation=%s (the second result does not refer to the bounds now displayed)' % OBLIGATION)", "    raise SystemExit(1)",
+                   "print('REPLAY-NOT-REPRODUCED obligation=%s' % OBLIGATION)", "raise SystemExit(4)"]
+            return L_
+        t.prove_paths("second_result_is_the_vertex_formula_over_the_bounds_now_displayed", second, goal, replay=replay)
     return _t
 
 
